@@ -18,7 +18,7 @@ RULE = ('no big-endian host, cross compiler or emulator exists in this sandbox, 
         'leave exactly the byte-reversed image over exactly its width, 8-bit accesses and bulk copies identical bytes, and every '
         'load/RMW must return the value whose big-endian encoding is in memory: the byte-array model is run with the byte order as '
         'a parameter and each build must match its model after EVERY call (result, CRC of the whole memory, byte dumps). (b) '
-        'translator: w2c2 itself built with -DWASM_ENDIAN=1 must emit bswap(c) for every f32/f64 immediate and leave integer '
+        'translator: w2c2 itself built with -DWASM_ENDIAN=1 must emit bswap(c) for every f32/f64 immediate (function bodies and global initialisers) and leave integer '
         'immediates unchanged. Non-trivial = history with a 16/32/64-bit store followed by a narrower or unaligned load of the '
         'same bytes, an RMW/cmpxchg narrower than 64 bits, a float access, or a float immediate whose byte-reversal differs from '
         'itself; distinct by (module, history, byte order).')
@@ -40,16 +40,21 @@ def const_case(ch, n=200):
     for i in range(n):
         t = ch.pick((F32, F64, F32, F64, I32, I64))
         v = pools.draw_const(ch, t)
+        # a third of the immediates sit in global initialisers (constant expressions are decoded by the reader AND by the writer)
+        src = [('%s.const' % t, v)]
+        if ch.below(3) == 0:
+            m.globals.append((t, bool(ch.below(2)), ('%s.const' % t, v)))
+            src = [('global.get', len(m.globals) - 1)]
         if t in (F32, F64):
             it = I32 if t == F32 else I64
             if ch.below(2):
-                m.funcs.append(Func(m.type_index((), (it,)), [], [('%s.const' % t, v), ('%s.reinterpret_%s' % (it, t),)]))
+                m.funcs.append(Func(m.type_index((), (it,)), [], src + [('%s.reinterpret_%s' % (it, t),)]))
             else:
-                m.funcs.append(Func(m.type_index((), (t,)), [], [('%s.const' % t, v)]))
+                m.funcs.append(Func(m.type_index((), (t,)), [], src))
             nb = 4 if t == F32 else 8
             expect.append((t, v, bswap(v, nb)))
         else:
-            m.funcs.append(Func(m.type_index((), (t,)), [], [('%s.const' % t, v)]))
+            m.funcs.append(Func(m.type_index((), (t,)), [], src))
             expect.append((t, v, v))
         m.exports.append((b'c%d' % i, 'func', i))
     return m, expect
@@ -95,6 +100,7 @@ def const_task(wid, seed, params):
                     f = m.funcs[i]
                     ft = m.types[f.type]
                     mm.funcs.append(Func(mm.type_index(ft[0], ft[1]), [], f.body))
+                    mm.globals = list(m.globals)
                     mm.exports.append((b'c0', 'func', 0))
                     res['violations'].append({'signature': 'be-translator-const:%s' % t,
                                               'summary': 'translator built with WASM_ENDIAN=1: %s.const 0x%x came out as %s, expected %s' % (t, v, act, exp_line),
